@@ -283,3 +283,112 @@ Example unguarded_clone_uses_stale_options :
   in_force (cclone_unguarded (run_cops ops)) <> in_force (run_cops ops) /\
   in_force (cclone (run_cops ops)) = Some o.
 Proof. split; [vm_compute; discriminate|reflexivity]. Qed.
+
+(* ---------- the order of one exchange's bytes across a two-step Stop ---------- *)
+Definition tinv (async : bool) (st : tstate) : Prop :=
+  ((t_running st = false \/ (t_stopped st = true /\ t_lock st = false) \/ async = false) ->
+   tasks_of (t_q st) = []) /\
+  (In None (t_q st) -> t_stopped st = true) /\
+  no_task_after_mark (t_q st) = true.
+
+Lemma tasks_of_snoc_none q : tasks_of (q ++ [None]) = tasks_of q.
+Proof. rewrite tasks_of_app. cbn. apply app_nil_r. Qed.
+
+Lemma ntam_snoc_none q : no_task_after_mark (q ++ [None]) = no_task_after_mark q.
+Proof.
+  induction q as [|[t|] q IH]; cbn [app no_task_after_mark]; [reflexivity|exact IH|].
+  rewrite tasks_of_snoc_none, IH. reflexivity.
+Qed.
+
+Lemma ntam_snoc_some q t : ~ In None q -> no_task_after_mark (q ++ [Some t]) = true.
+Proof.
+  induction q as [|[u|] q IH]; cbn [app no_task_after_mark]; intro H; [reflexivity| |].
+  - apply IH. intro. apply H. now right.
+  - exfalso. apply H. now left.
+Qed.
+
+Lemma tstep_inv async st ex op :
+  tinv async st ->
+  let '(st', ex') := tstep true async (st, ex) op in
+  tinv async st' /\
+  (t_out st ++ tasks_of (t_q st) = ex -> t_out st' ++ tasks_of (t_q st') = ex').
+Proof.
+  intros [A [B C]]. destruct st as [run stp lk q out]. unfold tinv.
+  cbn [t_running t_stopped t_lock t_q t_out] in *.
+  destruct op as [t| | |]; cbn [tstep t_running t_stopped t_lock t_q t_out].
+  - destruct lk; [split; [repeat split; assumption|auto]|].
+    destruct (async && run && negb stp) eqn:G; cbn [t_running t_stopped t_lock t_q t_out].
+    + apply Bool.andb_true_iff in G as [G1 G3]. apply Bool.andb_true_iff in G1 as [G0 G2].
+      apply Bool.negb_true_iff in G3. subst.
+      assert (NN : ~ In None q) by (intro H; specialize (B H); discriminate).
+      split; [split; [|split]|].
+      * intros [H|[[H _]|H]]; discriminate.
+      * intro H. apply in_app_or in H as [H|[H|[]]]; [contradiction|discriminate].
+      * now apply ntam_snoc_some.
+      * intro E. rewrite tasks_of_app. cbn [tasks_of flat_map app]. now rewrite app_assoc, E.
+    + assert (Z : tasks_of q = []).
+      { apply A. destruct run; [|now left]. destruct stp; [right; left; now split|].
+        destruct async; [discriminate G|right; now right]. }
+      split; [repeat split; assumption|].
+      intro E. rewrite Z, app_nil_r in *. now rewrite E.
+  - unfold tdrain. cbn [t_running t_stopped t_lock t_q t_out]. destruct run.
+    2:{ split; [repeat split; assumption|auto]. }
+    destruct q as [|[t|] q]; cbn [t_running t_stopped t_lock t_q t_out].
+    + split; [repeat split; assumption|auto].
+    + split; [split; [|split]|].
+      * intro H. assert (X : tasks_of (Some t :: q) = []).
+        { apply A. destruct H as [H|H]; [discriminate|now right]. }
+        discriminate.
+      * intro H. apply B. now right.
+      * exact C.
+      * intro E. cbn [tasks_of flat_map app] in E. rewrite <- app_assoc. exact E.
+    + cbn [no_task_after_mark] in C.
+      assert (T : tasks_of q = []) by (destruct (tasks_of q); [reflexivity|discriminate]).
+      rewrite T in C.
+      split; [split; [|split]|].
+      * intros _. exact T.
+      * intro H. apply B. now right.
+      * exact C.
+      * intro E. cbn [tasks_of flat_map app] in E. fold (tasks_of q) in E. rewrite T in *. exact E.
+  - split; [split; [|split]|auto].
+    + intros [H|H]; [discriminate|]. apply A. now right.
+    + exact B.
+    + exact C.
+  - cbn [andb]. split; [split; [|split]|].
+    + rewrite tasks_of_snoc_none. intros [H|[[_ H]|H]].
+      * apply A. now left.
+      * destruct run; [discriminate|]. apply A. now left.
+      * apply A. right. now right.
+    + reflexivity.
+    + now rewrite ntam_snoc_none.
+    + now rewrite tasks_of_snoc_none.
+Qed.
+
+(* Stop that keeps the lock while it waits: for EVERY interleaving of DumpTo calls (blocked ones
+   simply do not execute), drain steps, Start and Stop, the bytes written followed by the ones
+   still queued are the executed DumpTo calls in the order they were made - the later bytes of an
+   exchange in flight never overtake its earlier, still queued ones *)
+Theorem stop_keeps_order async ops :
+  let '(st, ex) := run_tops true async ops in
+  t_out st ++ tasks_of (t_q st) = ex.
+Proof.
+  unfold run_tops.
+  assert (G : forall ops st ex, tinv async st -> t_out st ++ tasks_of (t_q st) = ex ->
+              let '(st', ex') := fold_left (tstep true async) ops (st, ex) in
+              t_out st' ++ tasks_of (t_q st') = ex').
+  { clear. induction ops as [|op r IH]; intros st ex Hi E; cbn [fold_left]; [exact E|].
+    pose proof (tstep_inv async st ex op Hi) as H.
+    destruct (tstep true async (st, ex) op) as [st1 ex1]. destruct H as [Hi1 H1].
+    apply IH; [exact Hi1|now apply H1]. }
+  apply (G ops t0 []); [|reflexivity].
+  unfold tinv. cbn. repeat split; auto; try contradiction.
+Qed.
+
+(* a Stop that gives the lock back right after marking the queue (f-m3): the part dumped while Stop
+   waits is written at once, ahead of the two parts still queued *)
+Example unlocked_stop_reorders :
+  let a := (7%N, bs "part-1 ") in let b := (7%N, bs "part-2 ") in let c := (7%N, bs "part-3") in
+  let ops := [TStart; TDump a; TDump b; TMark; TDump c; TDrain; TDrain; TDrain] in
+  t_out (fst (run_tops false true ops)) = [c; a; b] /\ snd (run_tops false true ops) = [a; b; c] /\
+  t_out (fst (run_tops true true ops)) = [a; b] /\ snd (run_tops true true ops) = [a; b].
+Proof. repeat split. Qed.
